@@ -429,6 +429,16 @@ func TestC10(t *testing.T) {
 					tn = t.Tracking
 				}
 				ids, keys := idsOf(rt, kind, tn)
+				if found && rapid.IntRange(0, 7).Draw(rt, "memberActsOnItsOwnId") == 0 {
+					// somebody who is not the owner names exactly its own id of that list (a viewer "leaving a share")
+					m := drawAcc(rt, "member")
+					signer = m
+					ids, keys = hexsha(kind+tn+m.Bech), "k"
+					verdict = mustFail
+					if w.isOwner(t, signer.Bech) {
+						verdict = mayDo
+					}
+				}
 				var msg sdk.Msg
 				switch kind + op {
 				case "vadd":
